@@ -187,6 +187,26 @@ def run(ctx):
                 if got is not None and got != ref:
                     ctx.violation('verdict-depends-on-spelling-or-path', {'name': n, 'value': sp, 'how': how, 'reference_value': v},
                                   'valid=%r but %r for the plain parsed spelling' % (got, ref), KNOWN_PRED)
+    # ---- search: the verdict does not depend on how the NAME is spelled either (case, simple escapes, hex escapes)
+    for _ in range(60 if quick else 1500):
+        n = rng.choice([x for x in names if len(x) > 2 and x[1] not in '0123456789abcdefABCDEF'])
+        v = rng.choice(pool)
+        ref = prop_valid(n, v, 'parsed')
+        if ref is None:
+            continue
+        for nsp in (n.upper(), n[0] + '\\' + n[1:], n.capitalize(), '\\%x ' % ord(n[0]) + n[1:], n[:-1] + '\\' + n[-1] if n[-1] not in '0123456789abcdef' else n):
+            for how in ('parsed', 'constructed', 'dom'):
+                ctx.case(('name-spelling', nsp, v, how))
+                try:
+                    got = prop_valid(nsp, v, how)
+                except Exception as e:
+                    if isinstance(e, __import__('xml.dom').dom.DOMException):
+                        continue
+                    ctx.violation('raises', {'name': nsp, 'value': v, 'how': how}, '%s: %s' % (type(e).__name__, e), KNOWN_PRED)
+                    continue
+                if got is not None and got != ref:
+                    ctx.violation('verdict-depends-on-spelling-or-path', {'name': nsp, 'value': v, 'how': how, 'reference_name': n},
+                                  'valid=%r but %r for the plain spelling of the name' % (got, ref), KNOWN_PRED)
     # ---- search: conjunction upwards, font-face context, validation only annotates
     for _ in range(80 if quick else 2000):
         decls = [(rng.choice(names), rng.choice(pool)) for _ in range(rng.randrange(1, 5))]
